@@ -3,6 +3,9 @@ use in_toto::crypto::{PrivateKey, PublicKey, SignatureScheme};
 
 pub struct Pool {
     pub ed: Vec<PrivateKey>,
+    /// scenario-local: pool index i stands for the MATERIAL of key j known under a second identifier (same key bytes, no
+    /// key-id hash algorithm list, hence another key id)
+    pub alt: std::cell::RefCell<std::collections::HashMap<usize, PublicKey>>,
 }
 
 impl Pool {
@@ -33,13 +36,31 @@ impl Pool {
             let mut slots: Vec<Option<PrivateKey>> = sorted.into_iter().map(Some).collect();
             ed = rank.iter().map(|r| slots[*r].take().unwrap()).collect();
         }
-        Pool { ed }
+        Pool { ed, alt: Default::default() }
     }
     pub fn public(&self, i: usize) -> PublicKey {
+        if let Some(k) = self.alt.borrow().get(&i) { return k.clone(); }
         self.ed[i].public().clone()
     }
     pub fn keyid(&self, i: usize) -> String {
+        if let Some(k) = self.alt.borrow().get(&i) { return k.key_id().prefix_full(); }
         self.ed[i].public().key_id().prefix_full()
+    }
+    /// `same_material`: {"1": 0} - identifier 1 is a second name of the material of key 0
+    pub fn set_same_material(&self, m: &serde_json::Value) {
+        self.alt.borrow_mut().clear();
+        if let Some(o) = m.as_object() {
+            for (k, v) in o {
+                let j = v.as_u64().unwrap() as usize;
+                let base = self.ed[j].public().clone();
+                let bytes = base.as_bytes().to_vec();
+                let alt = match base.scheme() {
+                    SignatureScheme::Ed25519 => PublicKey::from_ed25519_with_keyid_hash_algorithms(bytes, None),
+                    _ => PublicKey::from_ecdsa_with_keyid_hash_algorithms(bytes, None),
+                };
+                if let Ok(a) = alt { self.alt.borrow_mut().insert(k.parse().unwrap(), a); }
+            }
+        }
     }
 }
 
